@@ -193,12 +193,11 @@ def r113(prog, chk):
     cfg = prog.cfg(un)
     rets = A.returns_of(un.node)
     rec = [(s, t, v) for s, t, v in subscript_stores(un) if T(t.value) == seenp and T(t.slice) == name]
-    ok = len(rets) == 1 and T(rets[0].value) == name and any(cfg.dominates(cfg.node_of(s), cfg.node_of(rets[0])) and not cfg.defs_between(name, cfg.node_of(s), cfg.node_of(rets[0])) if hasattr(cfg, "defs_between") else cfg.dominates(cfg.node_of(s), cfg.node_of(rets[0])) for s, t, v in rec)
+    ok = len(rets) == 1 and T(rets[0].value) == name
     if ok:
-        # the recording store is the last statement before the return: no redefinition of the name in between
-        last = [s for s, t, v in rec if cfg.dominates(cfg.node_of(s), cfg.node_of(rets[0]))][-1]
-        body = un.node.body
-        ok = body.index(last) == body.index(rets[0]) - 1
+        doms = [s_ for s_, t, v in rec if cfg.dominates(cfg.node_of(s_), cfg.node_of(rets[0]))]
+        # the name recorded is the name returned: same reaching definitions of the variable at both places
+        ok = bool(doms) and any({id(d.binder) for d in cfg.reaching_defs(name, s_)} == {id(d.binder) for d in cfg.reaching_defs(name, rets[0])} for s_ in doms)
     chk.ob("R11.3", f"{un.short}|the returned name is recorded in seen", ok, where(un), detail="seen[name] = 1; return name", message="_unique_name returns a name without recording it: the same name can be handed out again")
     wl = [n for n in A.body_nodes(un.node) if isinstance(n, ast.While)]
     ok = len(wl) == 1 and isinstance(wl[0].test, ast.Compare) and isinstance(wl[0].test.ops[0], ast.In) and T(wl[0].test.comparators[0]) == seenp and name in T(wl[0].test.left)
